@@ -332,7 +332,8 @@ fn read_fields(bytes: &[u8]) -> Option<Vec<(String, Option<Vec<u8>>)>> {
         for (n, g) in refs {
             let d = rd.get_object(n, g).ok()?.as_dict()?.clone();
             let t = d.get("T").and_then(|o| o.as_string()).map(|s| String::from_utf8_lossy(s.as_bytes()).into_owned())?;
-            let v = d.get("V").and_then(|o| o.as_string()).map(|s| s.as_bytes().to_vec());
+            // the value as TEXT (since the C10 repair non-ASCII values are written as UTF-16BE with BOM)
+            let v = d.get("V").and_then(|o| o.as_string()).map(|s| s.to_text().into_bytes());
             res.push((t, v));
         }
         res.sort();
